@@ -123,6 +123,9 @@ func cfgFor(profile string, i int) map[string]interface{} {
 	if profile == "fault" {
 		return map[string]interface{}{"fishmen": []string{"a05", "a06"}}
 	}
+	if profile == "scarce" {
+		return map[string]interface{}{"vstorThreshold": 1000000}
+	}
 	if profile == "reward" {
 		if i%3 == 2 {
 			// below the baseline: the per-block reward is capped by pledged * apy / (halving/2)
@@ -192,7 +195,8 @@ func scarceProfile() chain.Profile {
 	p.Nodes = []string{"a01", "a02", "a03", "a04"}
 	p.LateNodes = []string{"a05"}
 	p.Weights = map[string]int{"Blocks": 40, "StoreNew": 10, "StoreUpdate": 3, "Complete": 12, "Cancel": 4, "Terminate": 1,
-		"Renew": 2, "Claim": 3, "CreateLate": 2, "Reset": 3, "RemoveVstorage": 2, "AddVstorage": 2}
+		"Renew": 2, "Claim": 3, "CreateLate": 2, "Reset": 3, "RemoveVstorage": 2, "AddVstorage": 2, "SuperCycle": 5}
+	p.Staking = true // with a low capacity threshold (cfgFor): some providers are super nodes when orders are re-assigned
 	p.Sizes = []int64{1000, 10000}
 	p.Durs = []int64{3600, 7200}
 	p.Timeouts = []int64{5, 20, 100, 1800}
